@@ -53,6 +53,10 @@ func NewSys(meta Meta, seed int64, init any) (Sys, error) {
 		return NewWorld(meta, seed)
 	case "nonce":
 		return newNonceSys(meta, seed, init)
+	case "ltcred":
+		return newLtcredSys(meta, seed, init)
+	case "relaygen":
+		return newRelaygenSys(meta, seed, init)
 	}
 
 	return nil, fmt.Errorf("unknown system %q", meta.Sys)
